@@ -335,8 +335,11 @@ def _comp(pred_name, name, generator=None):
 # one component, every predicate evaluated on every trace (the first failing one is reported); the quick tier stays
 # within minutes, the thorough tier multiplies the cases
 # (the predicate with an open known class, c02_zero_window_waker / D9, comes last so that it masks nothing)
+# c02_rto_mode_armed, c02_no_silent_stall_g, c02_rto_armed_fin_g, c02_prompt_write_g: theorems of every model trace (guards inside
+# the predicates, Conn/C02_Pred2.v / Props/C02.v); the unguarded c02_rto_armed / c02_no_silent_stall / c02_prompt stay monitored
 ALL_PREDS = ["c02_parked_ok", "c02_write_wakes", "c02_drop_writer_wakes", "c02_shutdown_wakes", "c02_read_wakes",
-             "c02_eof_wakes", "c02_timer_ok_g", "c02_rto_armed", "c02_no_silent_stall", "c02_prompt", "c02_zero_window_waker"]
+             "c02_eof_wakes", "c02_timer_ok_g", "c02_rto_mode_armed", "c02_rto_armed_fin_g", "c02_no_silent_stall_g",
+             "c02_prompt_write_g", "c02_rto_armed", "c02_no_silent_stall", "c02_prompt", "c02_zero_window_waker"]
 COMPONENTS = [_comp("+".join(ALL_PREDS), "vsock", gen)]
 COMPONENTS[0]["corpus"] = ["vsock", "vsock_eof", "vsock_prompt", "vsock_rto", "vsock_shutdown"]
 # wake-ups under TRUE concurrency: the wake-up theorems assume atomic methods; two OS threads, really parked on their wakers
